@@ -142,7 +142,11 @@ def record(run):
     klog = logging.getLogger("enspara.cluster.kmedoids")
     oldlevel = klog.level
 
+    mute = {"on": False}      # True while the estimator's EARLIER fit (on other data) runs: nothing is recorded
+
     def w_iter(traj, distance_method, distances, assignments, center_inds, **kw):
+        if mute["on"]:
+            return orig_iter(traj, distance_method, distances, assignments, center_inds, **kw)
         if len(events) > 50 * n + 200:
             raise RuntimeError("k-centers is still iterating after %d recorded steps on %d frames" % (len(events), n))
         if first["kc"]:
@@ -154,6 +158,8 @@ def record(run):
         return out
 
     def w_pam(Xa, met, medoid_inds, assignments, distances, **kw):
+        if mute["on"]:
+            return orig_pam(Xa, met, medoid_inds, assignments, distances, **kw)
         if len(events) > 50 * n + 2000:
             raise RuntimeError("k-medoids is still sweeping after %d recorded steps on %d frames" % (len(events), n))
         if first["pam"] and run["algo"] == "kmedoids":
@@ -192,6 +198,27 @@ def record(run):
 
     shared = {}           # objects handed to BOTH executions of the run (the second one repeats the first)
 
+    def used_before(est):
+        """an estimator object is fit on OTHER data first (the frames in reverse order) and its attributes are read,
+        as a caller re-using one estimator would; the fit that is recorded afterwards must not remember any of it"""
+        if (n + run["k"] + run.get("sweeps", 0)) % 2:
+            return
+        mute["on"] = True
+        try:
+            est.fit(np.ascontiguousarray(X[::-1]))
+            _ = (est.centers_, est.labels_, est.distances_, est.center_indices_)
+        except Exception:
+            pass
+        finally:
+            mute["on"] = False
+            handler.events[:] = []
+
+    def fitted(est):
+        """the estimator's own view of its result (attributes), not the result_ tuple"""
+        from enspara.cluster.util import ClusterResult
+        return ClusterResult(center_indices=est.center_indices_, assignments=est.labels_, distances=est.distances_,
+                             centers=est.centers_)
+
     def call():
         del watched[:]
         algo, form = run["algo"], run.get("form", "function")
@@ -209,8 +236,9 @@ def record(run):
         if algo == "kcenters":
             if form == "estimator":
                 est = KCenters(m, n_clusters=kk, cluster_radius=cutf)
+                used_before(est)
                 est.fit(X, init_centers=init) if init is not None else est.fit(X)
-                return est.result_
+                return fitted(est)
             return kc_mod.kcenters(X, m, n_clusters=kk, dist_cutoff=cutf, init_centers=init,
                                    use_triangle_inequality=bool(run.get("ti", False)))
         if algo == "kmedoids":
@@ -236,8 +264,9 @@ def record(run):
                 kw.update(n_clusters=kk)
             if form == "estimator":
                 est = KMedoids(m, n_clusters=kk, n_iters=run["sweeps"])
+                used_before(est)
                 est.fit(X, **{k_: v for k_, v in kw.items() if k_ != "n_clusters"})
-                return est.result_
+                return fitted(est)
             if run.get("props") is not None:
                 kw.update(proposals=watch("proposals", list(run["props"])))
             return km_mod.kmedoids(X, m, n_iters=run["sweeps"], random_state=run.get("seed"), **kw)
@@ -245,8 +274,9 @@ def record(run):
             if form == "estimator":
                 est = KHybrid(m, n_clusters=kk, cluster_radius=cutf, kmedoids_updates=run["sweeps"],
                               random_state=run.get("seed"))
+                used_before(est)
                 est.fit(X, init_centers=init) if init is not None else est.fit(X)
-                return est.result_
+                return fitted(est)
             kw = {}
             if kk is not None:
                 kw["n_clusters"] = kk
